@@ -39,6 +39,7 @@ function rec(n, loc, i) {
 	if (mode == "spinfunc") { while (1) { loc[i % 3] = i++ } }
 	return 0
 }
+function wipe(wa) { split("", wa) }
 function cntlocal(la, k3, c3) { for (k3 in la) c3++; la["x"] = 1; la["y"] = 2; return c3 + 0 }
 function exitfunc(la, lb) { la[1] = 1; la[2] = 2; lb["q"] = 3; if (mode == "exitfunc") exit 3; return 1 / (mode == "errfunc2" ? 0 : 1) }
 function dumpvars(tag, k2) {
@@ -79,6 +80,8 @@ BEGIN {
 	if (mode == "srandrand") { sr = srand(7); r = rand(); sr = srand(11) }
 	if (mode == "cmdopen") { print "to-cat" | "cat"; r1 = ("emit a b" | getline l1); x = system("emit s0"); print "again" | "cat" }
 	if (mode == "setmodes") { INPUTMODE = "csv header"; OUTPUTMODE = "tsv" }
+	if (mode == "splitspecial") { n = split("u v w", ARGV); wipe(ENVIRON); arr["k"] = 1; split("p q", arr) }
+	if (mode == "delspecial") { delete ARGV; delete ENVIRON; ENVIRON["NEW"] = "x"; ARGV[5] = "z"; delete arr }
 	if (mode == "probe") {
 		print "B first", "x y", "p,q" # the first output of the run goes through print (CSV / TSV writer in those modes)
 		if (full) dumpvars("B")
@@ -249,6 +252,8 @@ func c14Alphabet(thorough bool) []c14Op {
 		ex("srandonly", c14Cfg{Stdin: "", Vars: c14v("srandonly")}),                                                                 // seeds, never draws
 		ex("srandrand", c14Cfg{Stdin: "", Vars: c14v("srandrand")}),                                                                 // seeds, draws, seeds again
 		cx("cmdopen", 0, c14Cfg{Stdin: "a\n", Vars: c14v("cmdopen")}),
+		ex("splitspecial", c14Cfg{Stdin: "a\n", Vars: c14v("splitspecial")}), // ARGV, ENVIRON and a global array replaced by split()
+		ex("delspecial", c14Cfg{Stdin: "a\n", Vars: c14v("delspecial")}),     // ... emptied by delete and refilled
 		ex("wopen", c14Cfg{Stdin: "a\n", Vars: c14v("wopen")}),
 		ex("ropen", c14Cfg{Stdin: "s1 s2\ns3\n", Vars: c14v("ropen")}),
 		ex("sandbox-w", c14Cfg{Stdin: "a\n", NoFileWrites: true, Vars: c14v("wopen")}),
@@ -713,7 +718,7 @@ func init() {
 	core.Register(&core.Check{
 		ID:    "C14",
 		Level: "model_checking",
-		Rule: "explicit-state search over the real Interpreter: state = history of operations on one interp.Interpreter, operation = Execute/ExecuteContext with one of ~33 configurations of one program (plain, FS/RS/ORS/SUBSEP via Vars, CSV/TSV header by Config/Vars/BEGIN, Args, error in function (also with filled local arrays)/loop/for-in/rule, exit 3 in BEGIN/rule/END and error in a rule while a range pattern is open, context cancelled at VM step k, file and command streams left open, completed run whose context is cancelled afterwards, sandbox flags, Chars, CRLF, rejected configurations) or ResetVars/ResetRand; " +
+		Rule: "explicit-state search over the real Interpreter: state = history of operations on one interp.Interpreter, operation = Execute/ExecuteContext with one of ~35 configurations of one program (plain, FS/RS/ORS/SUBSEP via Vars, CSV/TSV header by Config/Vars/BEGIN, Args, ARGV / ENVIRON / a global array replaced by split() or deleted and refilled, error in function (also with filled local arrays)/loop/for-in/rule, exit 3 in BEGIN/rule/END and error in a rule while a range pattern is open, context cancelled at VM step k, file and command streams left open, completed run whose context is cancelled afterwards, sandbox flags, Chars, CRLF, rejected configurations) or ResetVars/ResetRand; " +
 			"successor = replay of the history on a fresh Interpreter + one more operation (transitions); states de-duplicated by VerifDump() (states = distinct dumps), BFS to depth 2 (quick) / 3 (thorough); in every state 11 probe configurations x 2 oracles are run on the reused interpreter and compared with ExecProgram on a new one; distinct = distinct state dumps and probe observations",
 		Assumptions: []string{
 			"oracle 2 (no ResetVars) pins FS OFS ORS RS SUBSEP CONVFMT OFMT through Config.Vars on both sides and the probe then reads no global, array, RT, RSTART/RLENGTH, ARGV, ENVIRON or FIELDS: these are 'variables and arrays' that may carry over",
